@@ -281,7 +281,7 @@ def _hexclass(data):
 def _viol(codec, op, endian, mode, form, exp, got, **kw):
     sig = {"codec": codec, "op": op, "endianness": endian, "mode": mode}
     sig.update(kw)
-    return (sig, {"form": form[:1500], "expected": show(exp, 400), "observed": show(got, 400)})
+    return (sig, {"form": form[:20000], "expected": show(exp, 400), "observed": show(got, 400)})
 
 
 def _judge_list(form, exp, codec, op, endian, as_hex=False, single=False):
